@@ -74,6 +74,8 @@ inductive Ev where
   | worker (a : Nat)
   | sleep (a : Nat)
   | wake (a : Nat)
+  | waitEnter (a : Nat)
+  | waitExit (a : Nat)
   | reqCfg (a th pol : Nat)
   | seenCfg (a th pol : Nat)
   deriving Repr
@@ -110,13 +112,15 @@ structure St where
   /-- history: number of `create_thread` increments / `destroy_thread` decrements so far -/
   started : Nat
   finished : Nat
+  /-- the last sample of the counter taken by OS thread `a` let `thread_manager::wait` return -/
+  lastRet : Nat → Bool
 
 def init (na no : Nat) : St :=
   { na := na, no := no, cnt := 0, creating := 0, staged := 0, destroying := 0,
     live := fun _ => false, running := fun _ => false, cur := fun _ => none,
     worker := fun _ => false, asleep := fun _ => false, nworkers := 0, nsleep := 0,
     ph := .none, incarnation := 0, fin := false, result := 0, cfgReq := ⟨0, 0⟩, cfg := ⟨0, 0⟩,
-    stopper := none, spc := .out, started := 0, finished := 0 }
+    stopper := none, spc := .out, started := 0, finished := 0, lastRet := fun _ => false }
 
 /-- numeric values of `pika::runtime_state` used by `rt.state` -/
 abbrev rsInitialized : Nat := 0
@@ -173,10 +177,12 @@ def step (s : St) : Ev → Option St
         -- inside `pika::stop()`: `thread_manager::wait` runs only after `wait_finalize`
         if s.spc = .waitedFin then
           if v ≤ self then
-            if s.ph = .running then some { s with spc := .drained, ph := .stopping } else none
-          else some s
+            if s.ph = .running then
+              some { s with spc := .drained, ph := .stopping, lastRet := upd s.lastRet a true }
+            else none
+          else some { s with lastRet := upd s.lastRet a false }
         else none
-      else some s
+      else some { s with lastRet := upd s.lastRet a (decide (v ≤ self)) }
     else none
   | .rtState a v =>
     if a < s.na then
@@ -244,6 +250,12 @@ def step (s : St) : Ev → Option St
     if a < s.na ∧ s.ph = .resuming ∧ s.asleep a = true then
       some { s with asleep := upd s.asleep a false, nsleep := s.nsleep - 1 }
     else none
+  | .waitEnter a =>
+    -- harness note: about to call `pika::wait()`
+    if a < s.na then some { s with lastRet := upd s.lastRet a false } else none
+  | .waitExit a =>
+    -- harness note: `pika::wait()` returned on this OS thread; the predicate's last sample let it return
+    if a < s.na ∧ s.lastRet a = true then some { s with lastRet := upd s.lastRet a false } else none
   | .reqCfg a th pol =>
     if a < s.na ∧ s.ph = .none then some { s with cfgReq := ⟨th, pol⟩ } else none
   | .seenCfg a th pol =>
